@@ -332,6 +332,35 @@ def catalog_sky(c):
     return np.array([ra, dec]).T
 
 
+# group ids are "any hashable": the labels handed to the real code are drawn from this pool, which
+# holds falsy but legitimate ids (0, '', (), 0.0, False) next to ordinary ones.  spec['labels'] maps the
+# abstract group number of the scenario to an index of the pool (JSON friendly, so replays keep it).
+LABEL_POOL = [0, '', (), 'A', 7, (1, 'x'), 2.5, False, 0.0, -1, 'group 1', frozenset()]
+
+
+def draw_labels(rng, gids):
+    """pairwise unequal labels for the abstract group numbers in `gids` (None stays None)"""
+    out = {}
+    taken = []
+    for g in sorted({g for g in gids if g is not None}):
+        for _ in range(50):
+            i = rng.randrange(len(LABEL_POOL))
+            if all(not (LABEL_POOL[i] == LABEL_POOL[j]) for j in taken):
+                break
+        else:
+            continue
+        taken.append(i)
+        out[str(g)] = i
+    return out
+
+
+def real_group_label(spec, gid):
+    if gid is None:
+        return None
+    lab = (spec.get('labels') or {}).get(str(gid))
+    return gid if lab is None else LABEL_POOL[lab]
+
+
 def run_scenario(scene, spec, nprng):
     """
     spec: dict(images=[(origin, kind, gid)], errs=[(ex, ey)], ref=None | dict(kind='table'|'corrector',
@@ -344,7 +373,7 @@ def run_scenario(scene, spec, nprng):
     from tweakwcs import align_wcs, XYXYMatch, FITSWCSCorrector
     ims, srcs = [], []
     for k, ((origin, kind, gid), err) in enumerate(zip(spec['images'], spec['errs'])):
-        c, ids = scene.make_image(k, tuple(origin), kind, gid, err=tuple(err))
+        c, ids = scene.make_image(k, tuple(origin), kind, real_group_label(spec, gid), err=tuple(err))
         if spec.get('common') is not None and kind == 'good':
             ids = list(spec['common'])
             ox, oy = origin
